@@ -93,7 +93,9 @@ Series(n, o) == [i \in 1 .. n |-> ((o + 4 * i) % Len(FTable)) + 1]
 IntSeries(n, o) == [i \in 1 .. n |-> 5 + ((o + i) % 4)]                  \* integer-valued symbols (ages, complexities)
 GenOf(cc, t, j) ==
     LET c == ChoiceOf(cc) IN
-    [id |-> j - 1, exec |-> 1000 * t + 10 * j, solved |-> c[1], fit |-> Series(c[2], t + j), age |-> IntSeries(c[2], j),
+    \* (time stamps: ascending with the generation in odd trials, DESCENDING in even ones - a record is restored as it was
+    \* written, whatever order its stamps suggest)
+    [id |-> j - 1, exec |-> IF t % 2 = 1 THEN 1000 * t + 10 * j ELSE 1000 * t + 10 * (9 - j), solved |-> c[1], fit |-> Series(c[2], t + j), age |-> IntSeries(c[2], j),
      cplx |-> IntSeries(c[2], t), div |-> c[2], we |-> IF c[1] THEN 100 * t + j ELSE 0, wn |-> IF c[1] THEN 3 + j ELSE 0,
      wg |-> IF c[1] THEN 5 + t ELSE 0, dur |-> 7 * j + t, tid |-> t,
      champ |-> IF c[3] = 0 THEN NoChamp
